@@ -242,3 +242,137 @@ Example c03_nonvacuous :
   /\ 0 < c_ins ex_cfg_rag /\ 0 < c_del ex_cfg_rag /\ 0 < c_sub ex_cfg_rag
   /\ (1 < length (denote (c_eos ex_cfg_rag) (c_incl ex_cfg_rag) (seq_of (c_bf ex_cfg_rag) 1 ex_hyp_rag)) + 0)%nat.
 Proof. exact nonvacuous. Qed.
+
+(* ======================================================================================
+   SOURCE TIE (DESIGN.md section 10, notes/C03_tie_report.md).  The statements below are about the
+   Python text of `_string_matching` itself on the path `optimal_completion` takes through it
+   (return_mask = True; exclude_last arbitrary; norm / return_prf_dsts / return_mistakes at their default
+   False): PV.Gen.C03Src.{sm3_pre, sm3_row0, sm3_main, sm3_loop, sm3_body, sm3_lens} are regenerated from
+   /repo by harness/py2coq/translate.py on every C03 run, PV.MiniPy.Interp interprets them, the torch calls
+   mean what PV.MiniTorch.OpsC03 / OpsC01 / OpsC07 say (PV.C03.SrcRun.ext03).  A float cost is c / s for
+   integers ci cd cs over any common denominator s; [TieMath.ofx s o] is the float o / s, +inf for None;
+   [TieLib.runs_to P o]: the run o ends normally in a state satisfying P; [TieLoop.body_pre3 .. lf ms st]:
+   in state st the flags are those of the mask path, ref (R x N), hyp (H x N), ref_lens = rl, hyp_lens = hl,
+   del_mat[i][j] = del_entry cd i j, rrange = arange(R + 1), row[i][n] = lf i n (None = +inf) and the Python
+   list `masks` holds the (R x N) boolean tensors ms.
+   ====================================================================================== *)
+From Coq Require QArith.
+From PV Require MiniPy.Syntax MiniPy.Interp MiniTorch.OpsC07 MiniTorch.OpsC01 Gen.C03Src C01.TieLib C01.TieLoop C01.Tie
+  C03.SrcRun C03.TieMath C03.TieLoop C03.Tie.
+
+(* priority 1: ONE EXECUTION OF THE LOOP BODY (hyp_idx = k) leaves, for every column n, exactly Model.mask_step of
+   that column: in `row` the row carried to the next step (insertion / substitution candidates, the fold through
+   del_mat, freezing by not_done, +inf past ref_lens) and, appended to `masks`, the mask row
+   (row[:-1] == mins) & not_done.  Every batch size, widths, lengths, exclude_last, costs, previous row (with +inf). *)
+Theorem c03_source_loop_body_is_mask_step :
+  forall (s : positive) (ci cd cs : Z) (R N H : nat) (rf hf : nat -> nat -> Z) (rl hl : nat -> nat) (excl : bool)
+         (st : MiniPy.Interp.state) (k : nat) (lf : nat -> nat -> option Z) (ms : list (nat -> nat -> bool)),
+  (1 <= k <= H)%nat ->
+  C03.TieLoop.body_pre3 s ci cd cs R N H rf hf rl hl excl lf ms st ->
+  C01.TieLib.runs_to
+    (C03.TieLoop.body_pre3 s ci cd cs R N H rf hf rl hl excl
+       (fun i n => nth i (fst (mask_step ci cd cs (C01.TieLoop.colf R rf n) (C01.TieLoop.colf H hf n) (rl n) (hl n) excl k
+                                 (C03.TieLoop.colo (S R) lf n))) None)
+       (ms ++ [fun i n => nth i (snd (mask_step ci cd cs (C01.TieLoop.colf R rf n) (C01.TieLoop.colf H hf n) (rl n) (hl n) excl k
+                                        (C03.TieLoop.colo (S R) lf n))) false]))
+    (C03.Tie.run_loop_body k st).
+Proof. exact C03.Tie.loop_body_is_mask_step. Qed.
+Print Assumptions c03_source_loop_body_is_mask_step.
+
+(* priority 2: THE `for hyp_idx in range(1, max_hyp_steps + (0 if exclude_last else 1))` STATEMENT: steps = H or H - 1
+   iterations of mask_step in every column; `masks` grows by Model.masks_loop's rows *)
+Theorem c03_source_loop_is_masks_loop :
+  forall (s : positive) (ci cd cs : Z) (R N H : nat) (rf hf : nat -> nat -> Z) (rl hl : nat -> nat) (excl : bool)
+         (st : MiniPy.Interp.state) (lf : nat -> nat -> option Z) (ms : list (nat -> nat -> bool)),
+  C03.TieLoop.body_pre3 s ci cd cs R N H rf hf rl hl excl lf ms st -> C03.Tie.max_hyp_steps_is H st ->
+  let steps := (H + (if excl then 0 else 1) - 1)%nat in
+  C01.TieLib.runs_to
+    (C03.TieLoop.body_pre3 s ci cd cs R N H rf hf rl hl excl
+       (fun i n => nth i (C03.TieMath.iter_mrow ci cd cs (C01.TieLoop.colf R rf n) (C01.TieLoop.colf H hf n) (rl n) (hl n) excl
+                            steps 1 (C03.TieLoop.colo (S R) lf n)) None)
+       (ms ++ map (fun j i n =>
+                     nth i (nth j (masks_loop ci cd cs (C01.TieLoop.colf R rf n) (C01.TieLoop.colf H hf n) (rl n) (hl n) excl
+                                     steps 1 (C03.TieLoop.colo (S R) lf n)) []) false) (seq 0 steps)))
+    (C03.Tie.run_loop st).
+Proof. exact C03.Tie.loop_is_masks_loop. Qed.
+Print Assumptions c03_source_loop_is_masks_loop.
+
+(* priority 3: THE WHOLE CALL optimal_completion makes.  The blocks sm3_pre; sm3_row0; sm3_main run in sequence on the
+   arguments (ref / hyp as handed over: N rows of width R / H when batch_first, else R / H rows of width N; any eos,
+   include_eos, batch_first, exclude_last, warn; costs c / s) RETURN the (H', R, N) boolean tensor whose entry (k, i, n)
+   is bit i of row k of Model.oc_masks' pair n.  Hypotheses: the matrices are matrices, N > 0, R > 0 (a zero-width
+   reference makes the source raise IndexError at `row_mask[0] = ...`), and H > 0 when there is an eos (torch.max over
+   an empty dimension raises) - the input space of the property. *)
+Theorem c03_source_mask_is_model :
+  forall (s : positive) (c : cfg) (N R H : nat) (ref hyp : list (list Z)) (w : bool),
+  (0 < N)%nat -> R <> 0%nat -> C01.Tie.wf_src (c_bf c) N R ref -> C01.Tie.wf_src (c_bf c) N H hyp ->
+  (c_eos c <> None -> H <> 0%nat) ->
+  exists st', C03.Tie.run_mask_blocks s c N ref hyp w
+              = MiniPy.Interp.Ok (MiniTorch.OpsC07.enc_b (C03.Tie.model_mask_tensor c N R ref hyp)) st'.
+Proof. exact C03.Tie.mask_is_model. Qed.
+Print Assumptions c03_source_mask_is_model.
+
+(* THE WHOLE BODY OF THE FUNCTION AS ONE TERM (Gen.C03Src.sm3_body, every statement of _string_matching): the same *)
+Theorem c03_source_string_matching_mask_is_model :
+  forall (s : positive) (c : cfg) (N R H : nat) (ref hyp : list (list Z)) (w : bool),
+  (0 < N)%nat -> R <> 0%nat -> C01.Tie.wf_src (c_bf c) N R ref -> C01.Tie.wf_src (c_bf c) N H hyp ->
+  (c_eos c <> None -> H <> 0%nat) ->
+  exists st', C03.Tie.run_mask_body s c N ref hyp w
+              = MiniPy.Interp.Ok (MiniTorch.OpsC07.enc_b (C03.Tie.model_mask_tensor c N R ref hyp)) st'.
+Proof. exact C03.Tie.mask_body_is_model. Qed.
+Print Assumptions c03_source_string_matching_mask_is_model.
+
+(* the executable the harness evaluates on the cases of every run IS that run *)
+Theorem c03_source_src_mask_is_model :
+  forall (c : cfg) (scale : Z) (N R H : nat) (ref hyp : list (list Z)),
+  (0 < N)%nat -> R <> 0%nat -> C01.Tie.wf_src (c_bf c) N R ref -> C01.Tie.wf_src (c_bf c) N H hyp ->
+  (c_eos c <> None -> H <> 0%nat) ->
+  C03.SrcRun.src_mask C03.SrcRun.sm3_blocks c scale N ref hyp = Some (Some (C03.Tie.model_mask_tensor c N R ref hyp)) /\
+  C03.SrcRun.src_mask Gen.C03Src.sm3_body c scale N ref hyp = Some (Some (C03.Tie.model_mask_tensor c N R ref hyp)).
+Proof. exact C03.Tie.src_mask_is_model. Qed.
+Print Assumptions c03_source_src_mask_is_model.
+
+(* composed with c03_mask_marks_row_minima, ProofsMain.argmin_transfer and c03_preserving_iff_after_row_minimum - a
+   statement purely about the interpreted source: for positive costs the (H', R, N) tensor the source returns marks, in
+   row k of pair n (k = 0, or k below the length of the cut hypothesis, + 1 without exclude_last), exactly the positions
+   whose reference tokens keep the best reachable distance: t is found at a marked position iff appending t to the first
+   k hypothesis tokens does not raise the smallest edit distance a completion can still reach *)
+Theorem c03_source_mask_marks_preserving_tokens :
+  forall (s : positive) (c : cfg) (N R H : nat) (ref hyp : list (list Z)) (w : bool),
+  (0 < N)%nat -> R <> 0%nat -> C01.Tie.wf_src (c_bf c) N R ref -> C01.Tie.wf_src (c_bf c) N H hyp ->
+  (c_eos c <> None -> H <> 0%nat) ->
+  0 < c_ins c -> 0 < c_del c -> 0 < c_sub c ->
+  exists K (bits : list bool) st',
+    C03.Tie.run_mask_body s c N ref hyp w
+    = MiniPy.Interp.Ok (MiniTorch.OpsC07.enc_b (MiniTorch.OpsC07.mkTn [K; R; N] bits)) st' /\
+    K = S (H + (if c_excl c then 0 else 1) - 1) /\
+    forall n k, (n < N)%nat ->
+      let rseq := denote (c_eos c) (c_incl c) (seq_of (c_bf c) n ref) in
+      let hseq := denote (c_eos c) (c_incl c) (seq_of (c_bf c) n hyp) in
+      (k = 0 \/ k < length hseq + (if c_excl c then 0 else 1))%nat ->
+      forall t,
+        (exists i, (i < R)%nat /\ nth ((k * R + i) * N + n) bits false = true /\ nth i (seq_of (c_bf c) n ref) 0 = t)
+        <-> preserving (c_ins c) (c_del c) (c_sub c) rseq (firstn k hseq) t.
+Proof. exact C03.Tie.mask_marks_preserving. Qed.
+Print Assumptions c03_source_mask_marks_preserving_tokens.
+
+(* non-vacuity: the ragged batch of c03_nonvacuous (batch-first, eos = 0 counted, garbage after it, a repeated reference
+   token, costs 3/2, 1/2, 1, exclude_last) meets the hypotheses, and the interpreted source (blocks and whole body)
+   returns the model's (3, 4, 2) mask, whose marked positions are (k, i, n) = (0,0,0) (0,0,1) (1,1,0) (1,1,1) (2,1,0) (2,3,0)
+   - the positions of the tokens listed in ex_out_rag *)
+Example c03_source_nonvacuous :
+  C01.Tie.wf_src (c_bf ex_cfg_rag) 2 4 ex_ref_rag /\ C01.Tie.wf_src (c_bf ex_cfg_rag) 2 3 ex_hyp_rag /\
+  (0 < 2)%nat /\ 4%nat <> 0%nat /\ 3%nat <> 0%nat /\
+  C03.SrcRun.src_mask C03.SrcRun.sm3_blocks ex_cfg_rag 4 2 ex_ref_rag ex_hyp_rag
+    = Some (Some (C03.Tie.model_mask_tensor ex_cfg_rag 2 4 ex_ref_rag ex_hyp_rag)) /\
+  C03.SrcRun.src_mask Gen.C03Src.sm3_body ex_cfg_rag 4 2 ex_ref_rag ex_hyp_rag
+    = Some (Some (MiniTorch.OpsC07.mkTn [3; 4; 2]%nat
+                    [true; true; false; false; false; false; false; false;
+                     false; false; true; true; false; false; false; false;
+                     false; false; true; false; false; false; true; false])).
+Proof.
+  split; [split; [reflexivity|intros row [<-|[<-|[]]]; reflexivity]|].
+  split; [split; [reflexivity|intros row [<-|[<-|[]]]; reflexivity]|].
+  split; [apply Nat.lt_0_succ|]. split; [discriminate|]. split; [discriminate|].
+  split; vm_compute; reflexivity.
+Qed.
